@@ -373,6 +373,23 @@ pub fn process(
             };
             opcode |= r.number() << 4;
 
+            // ld/st have no displacement form, ldd/std nothing but Y+q and Z+q (plain Y/Z is q = 0)
+            match (op, &i) {
+                (Operation::Ld, IndexOps::PostIncrementE(..))
+                | (Operation::St, IndexOps::PostIncrementE(..)) => {
+                    bail!("{} takes no displacement, use ldd/std", op);
+                }
+                (Operation::Ldd, IndexOps::PostIncrement(_))
+                | (Operation::Ldd, IndexOps::PreDecrement(_))
+                | (Operation::Ldd, IndexOps::None(Reg16::X))
+                | (Operation::Std, IndexOps::PostIncrement(_))
+                | (Operation::Std, IndexOps::PreDecrement(_))
+                | (Operation::Std, IndexOps::None(Reg16::X)) => {
+                    bail!("{} takes Y+q or Z+q only, use ld/st", op);
+                }
+                _ => {}
+            }
+
             let reg_value = |i| match i {
                 Reg16::X => 0b1100,
                 Reg16::Y => 0b1000,
